@@ -233,7 +233,7 @@ def r4_slice_optionals(ctx, F):
                           "after the first colon the second colon can follow directly",
                           "%s: after the first `:` of a slice every path parses an expression before testing for the "
                           "second `:`: `x[a::c]` is rejected" % g.name, fn=g, line=a.line)
-    ctx.floor("C06.R4", "second-colon tests in the slice parser", n, 2)
+    ctx.floor("C06.R4", "second-colon tests in the slice parser", n, 1)
 
 
 def run(ctx):
